@@ -37,14 +37,54 @@ Proof.
         | inversion H as [| | | |a' b' s1 s2 H1 H2 E1 E2| | | | | | |]; subst; inversion H1; subst; exact H2 ]).
 Qed.
 
-Lemma alt'_lang a b s : In_lang (alt' a b) s <-> In_lang (Alt a b) s.
+Lemma ranges_eqb_eq a : forall b, ranges_eqb a b = true -> a = b.
 Proof.
-  destruct a, b; cbn; try reflexivity;
-    try (split; intros H;
-         [ first [ apply L_AltR; exact H | apply L_AltL; exact H ]
-         | inversion H as [| | | | |a' b' s' H1|a' b' s' H1| | | | |]; subst;
-           first [ exact H1 | inversion H1 ] ]).
+  induction a as [|[x1 y1] r IH]; intros [|[x2 y2] s]; cbn; try discriminate; [reflexivity|].
+  intros H. apply andb_true_iff in H as [H H3]. apply andb_true_iff in H as [H1 H2].
+  apply N.eqb_eq in H1, H2. subst. f_equal. apply IH, H3.
 Qed.
+Lemma rx_eqb_eq a : forall b, rx_eqb a b = true -> a = b.
+Proof.
+  induction a; intros b; destruct b; cbn; try discriminate; try reflexivity; intros H.
+  - apply N.eqb_eq in H. subst. reflexivity.
+  - apply andb_true_iff in H as [H1 H2]. apply Bool.eqb_prop in H1. apply ranges_eqb_eq in H2. subst. reflexivity.
+  - apply andb_true_iff in H as [H1 H2]. f_equal; auto.
+  - apply andb_true_iff in H as [H1 H2]. f_equal; auto.
+  - f_equal; auto.
+  - f_equal; auto.
+  - f_equal; auto.
+Qed.
+Lemma alt_mem_lang x a s : alt_mem x a = true -> In_lang x s -> In_lang a s.
+Proof.
+  induction a; cbn [alt_mem]; intros H Hx;
+    try (apply rx_eqb_eq in H; subst; exact Hx).
+  apply orb_true_iff in H as [H|H]; [apply L_AltL|apply L_AltR]; auto.
+Qed.
+Lemma alt_add_lang b : forall a s, In_lang (alt_add a b) s <-> In_lang (Alt a b) s.
+Proof.
+  assert (Leaf : forall a x s, (forall l r, x <> Alt l r) -> x <> Emp ->
+            In_lang (if alt_mem x a then a else match a with Emp => x | _ => Alt a x end) s <-> In_lang (Alt a x) s).
+  { intros a x s _ _. destruct (alt_mem x a) eqn:E.
+    - split; [apply L_AltL|]. intros H. inversion H; subst; [assumption|eapply alt_mem_lang; eassumption].
+    - destruct a; try reflexivity. split; [apply L_AltR|]. intros H. inversion H; subst; [|assumption].
+      match goal with H1 : In_lang Emp _ |- _ => inversion H1 end. }
+  induction b; intros a0 s; cbn [alt_add];
+    try (apply Leaf; [intros; discriminate|discriminate]).
+  - (* Emp *) split; [apply L_AltL|]. intros H. inversion H; subst; [assumption|].
+    match goal with H1 : In_lang Emp _ |- _ => inversion H1 end.
+  - (* Alt *) rewrite IHb2. split; intros H.
+    + inversion H; subst.
+      * match goal with H1 : In_lang (alt_add _ _) _ |- _ => apply IHb1 in H1; inversion H1; subst end;
+          [apply L_AltL; assumption|apply L_AltR, L_AltL; assumption].
+      * apply L_AltR, L_AltR. assumption.
+    + inversion H; subst.
+      * apply L_AltL, IHb1, L_AltL. assumption.
+      * match goal with H1 : In_lang (Alt b1 b2) _ |- _ => inversion H1; subst end;
+          [apply L_AltL, IHb1, L_AltR; assumption|apply L_AltR; assumption].
+Qed.
+
+Lemma alt'_lang a b s : In_lang (alt' a b) s <-> In_lang (Alt a b) s.
+Proof. apply alt_add_lang. Qed.
 
 (* nonempty members of a star split with a nonempty first block *)
 Lemma star_cons_inv a c s :
